@@ -95,6 +95,50 @@ def _random_trace_(seed):
     return trace
 
 
+def _scripted_trace(sid):
+    """deterministic histories around refused non-finite limits: after NaN / Infinity offered to <p>_min / _max /
+    _limits the old limit still holds for the following requests (judged by Trace_Dispatch like the random traces)"""
+    shape = _shapes[sid]['shape']
+    w = dc.World(shape)
+    trace = [{'ev': 'shape', 'shape': shape, 'cache': w.cache()}]
+    num, sp = dc.num, lambda s: {'k': 'special', 's': s}
+    reqs = []
+    for m, accs in shape.items():
+        for a, acc in accs.items():
+            if acc['kind'] != 'param' or acc['lim']['kind'] == 'none':
+                continue
+            tgt = acc['wire']
+            hi = acc['dt']['hi']
+
+            def ch(name, p, m=m):
+                reqs.append({'act': 'change', 'mod': m, 'name': name, 'payload': p})
+            if acc['lim']['kind'] == 'limits':
+                lw = accs[acc['lim']['both']]['wire']
+                narrow = {'k': 'list', 'xs': [num(2), num(5)]}
+                bad = [{'k': 'list', 'xs': [num(2), sp(s)]} for s in ('nan', 'pinf')] + \
+                      [{'k': 'list', 'xs': [sp(s), num(5)]} for s in ('nan', 'ninf')] + \
+                      [{'k': 'list', 'xs': [sp('nan'), sp('nan')]}]
+            else:
+                lw = accs[acc['lim']['hi'] or acc['lim']['lo']]['wire']
+                narrow = num(5)
+                bad = [sp(s) for s in ('nan', 'pinf', 'ninf', 'huge')]
+            for b in bad:                       # on the initial limits
+                ch(lw, b)
+                ch(tgt, num(hi))
+            ch(lw, narrow)
+            for b in bad:                       # on moved limits: the moved limit still holds afterwards
+                ch(lw, b)
+                ch(tgt, num(hi))                # above the moved upper limit (5)
+                ch(tgt, num(5))
+                ch(tgt, sp('nan'))
+                reqs.append({'act': 'read', 'mod': m, 'name': lw, 'payload': dc.NULL})
+    for req in reqs:
+        o = w.request(req)
+        o.pop('text', None)
+        trace.append(dict(o, ev='req', req=req))
+    return trace
+
+
 def _report_trace_devs(chk, traces, devs, module='Dispatch'):
     for ti, l, clause in devs:
         tr = traces[ti]
@@ -150,7 +194,9 @@ def run(chk):
 
     # 3 code -> spec
     n = 400 if quick else 15000
-    traces = []
+    traces = [t for t in pool_map(_scripted_trace, sorted(s for s, x in _shapes.items() if any(
+        a['kind'] == 'param' and a['lim']['kind'] != 'none' for a in x['shape']['m'].values()))) if len(t) > 1]
+    chk.notes['scripted_limit_histories'] = len(traces)
     for x in pool_map(_random_trace, [chk.seed * 1000003 + i for i in range(n)]):
         if x is None:
             continue
